@@ -46,6 +46,12 @@ def opt_events(rng, kw, meta):
         kw["t_eval"] = [x0 + span * p for p in sorted(rng.uniform(0, 1) for _ in range(rng.randint(1, 8)))]
     if rng.random() < 0.4:
         kw["dense"] = True
+    # first_step switches the handler to its "first output at x0 + first_step" path, whose early returns
+    # bypass the end of the callback (seeded change C08-b: history updates moved behind them)
+    if "t_eval" not in kw and rng.random() < 0.3:
+        span = abs(xend - x0)
+        kw["first_step"] = span * rng.choice([1e-3, 0.01, 0.05, 0.2])
+        meta["first_step"] = 1
 
 
 def opt_steps(rng, kw, meta):
